@@ -69,6 +69,16 @@ class _RenameTargetInstance(DefaultTransformVisitor):
         s = ForStmt(target, iterable, body, stmt.loc)
         return s, None
 
+    def _visit_context(self, stmt: ContextStmt, ctx: None):
+        # the `as x` target is a binding like any other: renaming its uses
+        # (`_visit_var`) but not the binding itself left the uses unbound and
+        # let the unrenamed name capture a variable of an enclosing scope
+        context = self._visit_expr(stmt.ctx, ctx)
+        target = self._visit_binding(stmt.target, ctx)
+        body, _ = self._visit_block(stmt.body, ctx)
+        s = ContextStmt(target, context, body, stmt.loc)
+        return s, None
+
     def _visit_function(self, func: FuncDef, ctx: None):
         args: list[Argument] = []
         for arg in func.args:
